@@ -450,7 +450,57 @@ func Invalid(r *rand.Rand) Case {
 		base[k] = fmt.Sprintf(f, huge)
 		return Case{Expr: strings.Join(base, " "), Feature: "invalid", Expect: MustReject, Class: "huge-number"}
 	}
-	switch r.Intn(14) {
+	switch r.Intn(16) {
+	case 14, 15:
+		// a special day form (L, L-n, nW, LW, nL, n#k) with extra text in a place where the recogniser has to look at the WHOLE field:
+		// between the letter and its number, before the letter, after the number
+		class = "special-junk"
+		junk := []string{"5", "L", ",5", "/2", "#1", "X", "15", "W", "-", "*", "?", " ", "l", "0", ",", "31", "-1"}[r.Intn(17)]
+		if junk == " " {
+			junk = "x"
+		}
+		n := 1 + r.Intn(28)
+		if r.Intn(2) == 0 {
+			k = 3
+			setDay(k)
+			forms := []string{"L%s-%d", "%sL-%d", "L-%d%s", "L%s", "%sL", "%d%sW", "%dW%s", "L%sW", "LW%s", "%sLW"}
+			f := forms[r.Intn(len(forms))]
+			switch strings.Count(f, "%") {
+			case 1:
+				base[3] = fmt.Sprintf(f, junk)
+			default:
+				if strings.Index(f, "%s") < strings.Index(f, "%d") {
+					base[3] = fmt.Sprintf(f, junk, n)
+				} else {
+					base[3] = fmt.Sprintf(f, n, junk)
+				}
+			}
+			// a few combinations are well-formed after all (L + "W" = LW, junk "5" in front of "W" …): keep only what the documented
+			// grammar excludes
+			if okDomSpecial(base[3]) {
+				base[3] = "L" + "X" + fmt.Sprintf("-%d", n)
+			}
+		} else {
+			k = 5
+			setDay(k)
+			d := 1 + r.Intn(7)
+			forms := []string{"%d%sL", "%dL%s", "%d%s#%d", "%d#%s%d", "%d#%d%s"}
+			f := forms[r.Intn(len(forms))]
+			kk := 1 + r.Intn(5)
+			switch f {
+			case "%d%sL", "%dL%s":
+				base[5] = fmt.Sprintf(f, d, junk)
+			case "%d%s#%d":
+				base[5] = fmt.Sprintf(f, d, junk, kk)
+			case "%d#%s%d":
+				base[5] = fmt.Sprintf(f, d, junk, kk)
+			default:
+				base[5] = fmt.Sprintf(f, d, kk, junk)
+			}
+			if okDowSpecial(base[5]) {
+				base[5] = fmt.Sprintf("%dX#%d", d, kk)
+			}
+		}
 	case 0:
 		class = "field-count"
 		n := []int{0, 1, 2, 3, 4, 5, 8, 9}[r.Intn(8)]
@@ -633,4 +683,66 @@ func Raw(r *rand.Rand) Case {
 		b.WriteString(chunks[r.Intn(len(chunks))])
 	}
 	return Case{Expr: b.String(), Feature: "raw"}
+}
+
+
+// okDomSpecial / okDowSpecial: is the text a well-formed day-of-month / day-of-week field after all? (Conservative: anything that could be
+// read as a documented form — a number, a list/range/step of numbers, L, L-n, nW, LW; a number or name, nL, n#k — counts as well-formed,
+// so that the "special-junk" class only keeps texts the documented grammar excludes.)
+func okDomSpecial(f string) bool {
+	isNum := func(t string) bool {
+		if t == "" {
+			return false
+		}
+		for _, c := range t {
+			if c < '0' || c > '9' {
+				return false
+			}
+		}
+		return true
+	}
+	switch {
+	case f == "L", f == "LW", f == "*", f == "?":
+		return true
+	case strings.HasPrefix(f, "L-") && isNum(f[2:]):
+		return true
+	case strings.HasSuffix(f, "W") && isNum(f[:len(f)-1]):
+		return true
+	}
+	// plain numeric forms: digits with , - / * and no letters
+	for _, c := range f {
+		if !(c >= '0' && c <= '9') && !strings.ContainsRune(",-/*?", c) {
+			return false
+		}
+	}
+	return true
+}
+
+func okDowSpecial(f string) bool {
+	isNum := func(t string) bool {
+		if t == "" {
+			return false
+		}
+		for _, c := range t {
+			if c < '0' || c > '9' {
+				return false
+			}
+		}
+		return true
+	}
+	switch {
+	case f == "L", f == "*", f == "?":
+		return true
+	case strings.HasSuffix(f, "L") && isNum(f[:len(f)-1]):
+		return true
+	}
+	if i := strings.Index(f, "#"); i > 0 && isNum(f[:i]) && isNum(f[i+1:]) {
+		return true
+	}
+	for _, c := range f {
+		if !(c >= '0' && c <= '9') && !strings.ContainsRune(",-/*?", c) {
+			return false
+		}
+	}
+	return true
 }
